@@ -26,10 +26,11 @@ MANIFEST_ENTRY = {
     "technique": "Coq proof over a hand-written executable model + differential correspondence check (vm_compute) + property oracle",
     "design_ref": "DESIGN.md 4/C17",
 }
-ANCHOR_RANGES = [("jsonrpclib/jsonrpc.py", 201, 235), ("jsonrpclib/jsonrpc.py", 388, 412), ("jsonrpclib/jsonrpc.py", 562, 602),
+# line ranges of the anchored mechanisms in the REPAIRED tree (the F11 repair adds three lines to do_POST)
+ANCHOR_RANGES = [("jsonrpclib/jsonrpc.py", 201, 235), ("jsonrpclib/jsonrpc.py", 388, 412), ("jsonrpclib/jsonrpc.py", 562, 604),
                  ("jsonrpclib/jsonrpc.py", 665, 673), ("jsonrpclib/utils.py", 79, 93),
-                 ("jsonrpclib/SimpleJSONRPCServer.py", 476, 488), ("jsonrpclib/SimpleJSONRPCServer.py", 524, 532),
-                 ("jsonrpclib/SimpleJSONRPCServer.py", 709, 725)]
+                 ("jsonrpclib/SimpleJSONRPCServer.py", 476, 491), ("jsonrpclib/SimpleJSONRPCServer.py", 524, 535),
+                 ("jsonrpclib/SimpleJSONRPCServer.py", 712, 728)]
 RULE = ("streams: codec (boundary code points, surrogates, random strings; every single byte, lead x continuation boundary "
         "grid, truncations and mutations of valid encodings); feed (every split point, every pair of split points for short "
         "bodies, random multi-splits, empty chunks, of bodies <= 64 bytes through the real JSONParser/JSONTarget); parse "
@@ -238,22 +239,28 @@ class Feed(pipeline.Stream):
         return cases
 
     def run_impl(self, case):
-        p, u = self.transport.getparser()
-        for c in case:
-            p.feed(c)
-        p.close()
-        r = u.close()
+        try:
+            p, u = self.transport.getparser()
+            for c in case:
+                p.feed(c)
+            p.close()
+            r = u.close()
+        except Exception as ex:   # noqa
+            return ("raise", exc_name(ex))
         return ("bytes", r) if isinstance(r, bytes) else ("str", r)
 
     def oracle(self, case, obs):
         whole = b"".join(case)
         ref = valid_utf8(whole)
         if ref is not None and (obs[0] != "str" or obs[1] != ref):
-            return ("C17:client-reassembly", "chunks %r reassembled to %r, the whole decodes to %r" % (case, obs[1], ref))
+            return ("C17:client-reassembly", "chunks %r reassembled to %s %r, the whole decodes to %r" % (case, obs[0], obs[1], ref))
         return None
 
     def encode(self, case, obs):
-        o = "(PStr %s)" % S.g_text(obs[1]) if obs[0] == "str" else "(PBytes %s)" % S.g_bytes(obs[1])
+        if obs[0] == "raise":
+            o = "(PBytes [255]%N)" if valid_utf8(b"".join(case)) is not None else "(PStr [0]%N)"     # the model never raises: disagree
+        else:
+            o = "(PStr %s)" % S.g_text(obs[1]) if obs[0] == "str" else "(PBytes %s)" % S.g_bytes(obs[1])
         return "([%s], %s)" % ("; ".join(S.g_bytes(c) for c in case), o)
 
     def _splits_char(self, case):
@@ -273,6 +280,9 @@ class Feed(pipeline.Stream):
 
     def describe(self, case, obs):
         return {"chunks": [c.hex() for c in case], "result": obs[0], "value": obs[1].hex() if obs[0] == "bytes" else obs[1]}
+
+    def masked(self, case, obs):
+        return False
 
     def to_replay(self, case):
         return [c.hex() for c in case]
@@ -688,9 +698,34 @@ class FakeServer(object):
         return self.disp[1]
 
 
-def run_do_post(mod, cfg, body, clen, caps, disp):
-    import http.client
+_SMALL = {}
+
+
+def handler_class(mod, M):
+    """The real request handler class; for M != None a subclass whose do_POST is the real function's
+    code object with the single constant 10485760 (max_chunk_size, a local constant of do_POST) replaced
+    by M, so that the real loop crosses chunk boundaries on small bodies.  None when the constant is not
+    found (the code was restructured): the small-chunk cases are then skipped, not failed."""
     H = mod.SimpleJSONRPCRequestHandler
+    if M is None:
+        return H
+    key = (id(H), M)
+    if key not in _SMALL:
+        import types
+        f = H.do_POST
+        code = f.__code__
+        if sum(1 for c in code.co_consts if type(c) is int and c == CHUNK) != 1:
+            _SMALL[key] = None
+        else:
+            consts = tuple(M if (type(c) is int and c == CHUNK) else c for c in code.co_consts)
+            g = types.FunctionType(code.replace(co_consts=consts), f.__globals__, f.__name__, f.__defaults__, f.__closure__)
+            _SMALL[key] = type("SmallChunkHandler%d" % M, (H,), {"do_POST": g})
+    return _SMALL[key]
+
+
+def run_do_post(mod, cfg, body, clen, caps, disp, M=None):
+    import http.client
+    H = handler_class(mod, M)
     h = H.__new__(H)
     srv = FakeServer(cfg, disp)
     h.server = srv
@@ -731,9 +766,18 @@ class Server(pipeline.Stream):
     def gen(self, tier, rng):
         cases = []
 
-        def add(body, caps, clen=None, ct=CTYPES[0], disp=("text", '{"jsonrpc": "2.0", "result": "é", "id": 1}')):
+        def add(body, caps, clen=None, ct=CTYPES[0], disp=("text", '{"jsonrpc": "2.0", "result": "é", "id": 1}'), M=None):
             b = body if isinstance(body, bytes) else body.encode()
-            cases.append({"body": b, "clen": len(b) if clen is None else clen, "caps": list(caps), "ct": ct, "disp": disp})
+            if M is not None and handler_class(self.M, M) is None:
+                return
+            cases.append({"body": b, "clen": len(b) if clen is None else clen, "caps": list(caps), "ct": ct, "disp": disp, "M": M})
+        # the real loop with the chunk-size constant replaced by a small one: every body x chunk size
+        for t in SERVER_BODIES:
+            for M in (1, 2, 3, 4, 5, 8):
+                add(t, [], M=M)
+                add(t, [3, 1], M=M)
+        add("aébc", [], clen=3, M=2)
+        add(b"a\xc3", [], M=1)
         for t in SERVER_BODIES:
             n = len(t.encode())
             add(t, [])
@@ -769,13 +813,13 @@ class Server(pipeline.Stream):
             caps = [rng.choice([1, 1, 2, 3, 4, 7, 100] + ([0] if rng.random() < 0.05 else [])) for _ in range(rng.randint(0, 10))]
             clen = len(b) if rng.random() < 0.9 else max(0, len(b) + rng.choice([-2, -1, 1, 5]))
             disp = rng.choice([("text", rand_text(rng, 12)), ("text", '{"id": 1}'), ("none",), ("raise",)])
-            add(b, caps, clen=clen, ct=rng.choice(CTYPES), disp=disp)
+            add(b, caps, clen=clen, ct=rng.choice(CTYPES), disp=disp, M=rng.choice([None, None, 1, 2, 3, 4, 6]))
         return cases
 
     def run_impl(self, case):
         cfg = self.C.Config(content_type=case["ct"])
         try:
-            seen, status, ct, cl, rbody = run_do_post(self.M, cfg, case["body"], case["clen"], case["caps"], case["disp"])
+            seen, status, ct, cl, rbody = run_do_post(self.M, cfg, case["body"], case["clen"], case["caps"], case["disp"], case.get("M"))
         except Exception as ex:   # noqa
             return ("raise", exc_name(ex))
         return ("reply", seen, status, ct, cl, rbody)
@@ -796,6 +840,8 @@ class Server(pipeline.Stream):
             if ref is not None:
                 if seen != [ref]:
                     how = "short reads %r" % caps if caps else "full reads"
+                    if case.get("M"):
+                        how += " with the chunk-size constant set to %d" % case["M"]
                     return ("C17:server-reassembly-short-read" if caps else "C17:server-reassembly",
                             "body of %d valid UTF-8 bytes read by %s: dispatcher saw %r (status %d), the whole decodes to %r" % (
                                 clen, how, seen, status, ref))
@@ -820,14 +866,23 @@ class Server(pipeline.Stream):
                 "; ".join(S.g_string(x) for x in ct), "; ".join(S.g_string(x) for x in cl), S.g_bytes(rbody))
         d = case["disp"]
         disp = "DNone" if d[0] == "none" else "DRaise" if d[0] == "raise" else "(DText %s)" % S.g_text(d[1])
-        return "(max_chunk_size, %s, %d%%N, %s, [%s]%%N, %s, %s, %s)" % (
-            S.g_string(case["ct"]), case["clen"], S.g_bytes(case["body"]), ";".join(map(str, case["caps"])), disp, S.g_text(fault), o)
+        return "(%s, %s, %d%%N, %s, [%s]%%N, %s, %s, %s)" % (
+            "%d%%N" % case["M"] if case.get("M") else "max_chunk_size", S.g_string(case["ct"]), case["clen"], S.g_bytes(case["body"]), ";".join(map(str, case["caps"])), disp, S.g_text(fault), o)
 
     def _splits_char(self, case):
-        b, pos = case["body"], 0
-        for c in case["caps"]:
-            pos += c
-            if 0 < pos < min(len(b), case["clen"]) and (b[pos] & 0xc0) == 0x80:
+        # replay the read sizes: min(remaining, M, scripted size)
+        b, pos, caps = case["body"], 0, list(case["caps"])
+        rem, M = case["clen"], case.get("M") or CHUNK
+        while rem > 0 and pos < len(b):
+            n = min(rem, M)
+            if caps:
+                n = min(n, caps.pop(0))
+            n = min(n, len(b) - pos)
+            if n <= 0:
+                break
+            pos += n
+            rem -= n
+            if rem > 0 and pos < len(b) and (b[pos] & 0xc0) == 0x80:
                 return True
         return False
 
@@ -837,8 +892,9 @@ class Server(pipeline.Stream):
     def kind(self, case, obs):
         if obs[0] != "reply":
             return "raise"
-        return "%s / dispatcher %s / status %d" % ("a read splits a character" if self._splits_char(case) else
-                                                   "short reads" if case["caps"] else "full reads", case["disp"][0], obs[2])
+        return "%s%s / dispatcher %s / status %d" % ("small chunk constant / " if case.get("M") else "",
+                                                     "a read splits a character" if self._splits_char(case) else
+                                                     "short reads" if case["caps"] else "full reads", case["disp"][0], obs[2])
 
     def describe(self, case, obs):
         d = self.to_replay(case)
@@ -849,10 +905,12 @@ class Server(pipeline.Stream):
         return d
 
     def to_replay(self, case):
-        return {"body": case["body"].hex(), "clen": case["clen"], "caps": case["caps"], "ct": case["ct"], "disp": list(case["disp"])}
+        return {"body": case["body"].hex(), "clen": case["clen"], "caps": case["caps"], "ct": case["ct"], "disp": list(case["disp"]),
+                "M": case.get("M")}
 
     def from_replay(self, j):
-        return {"body": bytes.fromhex(j["body"]), "clen": j["clen"], "caps": j["caps"], "ct": j["ct"], "disp": tuple(j["disp"])}
+        return {"body": bytes.fromhex(j["body"]), "clen": j["clen"], "caps": j["caps"], "ct": j["ct"], "disp": tuple(j["disp"]),
+                "M": j.get("M")}
 
     def shrink(self, case):
         if case["disp"] != ("text", "{}"):
@@ -891,7 +949,7 @@ class ServerBig(pipeline.Stream):
             k = len(ch.encode())
             offs = [1] if tier == "quick" else list(range(0, k + 1))
             for off in offs:                              # the character starts `off` bytes before the boundary
-                cases.append({"pre": CHUNK - off, "ch": ord(ch), "post": 1 if off else 0, "caps": [], "coq": tier == "thorough" or k == 2})
+                cases.append({"pre": CHUNK - off, "ch": ord(ch), "post": 1 if off else 0, "caps": [], "coq": tier == "thorough" and off in (1, k)})
         if tier == "thorough":
             cases.append({"pre": CHUNK - 1, "ch": 0x61, "post": 0, "caps": [], "coq": False})        # exactly 10 MiB, ASCII
             cases.append({"pre": 2 * CHUNK - 2, "ch": 0x20ac, "post": 5, "caps": [], "coq": False})  # second boundary
